@@ -1,6 +1,6 @@
 (* C02 — derived edges are exactly the boundary segments of the faces.
    Statements only; each closed by `exact` of a lemma from Proofs/, followed by Print Assumptions. *)
-From Verif Require Import Base C02 C02_proofs.
+From Verif Require Import Base C02 C02_proofs C02_check C02_check_proofs.
 
 (* edge_node_connectivity lists exactly the unordered consecutive corner pairs (incl. closing pair) *)
 Theorem C02_edges_exact : forall m t q, std_table m t -> (In q (edges t) <-> In q (spec_pairs t)).
@@ -41,3 +41,15 @@ Theorem C02_n_nodes_per_face : forall m t f r, std_table m t -> nth_error t f = 
   /\ r = corners r ++ repeat FILL (m - length (corners r)).
 Proof. exact npf_spec. Qed.
 Print Assumptions C02_n_nodes_per_face.
+
+(* the boolean checker that the harness runs (extracted) on the IMPLEMENTATION's output decides exactly
+   the property's clauses ... *)
+Theorem C02_checker_decides_spec : forall t E FE npf, c02_check t E FE npf = true <-> C02_spec t E FE npf.
+Proof. exact check_sound_complete. Qed.
+Print Assumptions C02_checker_decides_spec.
+
+(* ... and the model's output meets them for every standard-form table *)
+Theorem C02_model_meets_spec : forall m t, std_table m t ->
+  C02_spec t (edges t) (face_edges t m) (n_nodes_per_face t).
+Proof. exact model_meets_spec. Qed.
+Print Assumptions C02_model_meets_spec.
